@@ -22,8 +22,8 @@ SCHEMES = ("rt0", "mvem")
 
 def tier(ctx):
     if ctx.quick:
-        return dict(sizes=[(1,), (3,), (1, 1), (2, 1), (2, 2), (3, 2), (1, 1, 1), (2, 1, 1), (2, 2, 1)],
-                    mods=["none", "tensor", "pert", "shear"], nvar=2, nk=3, nmask=0, exhnb=0)
+        return dict(sizes=[(1,), (3,), (1, 1), (2, 1), (2, 2), (3, 2), (1, 1, 1), (2, 1, 1)],
+                    mods=["none", "tensor", "pert", "shear"], nvar=2, nk=2, nmask=0, exhnb=0)
     return dict(sizes=[(1,), (2,), (3,), (1, 1), (2, 1), (2, 2), (3, 1), (3, 2), (3, 3), (1, 1, 1), (2, 1, 1), (2, 2, 1),
                        (2, 2, 2), (3, 2, 2)],
                 mods=["none", "tensor", "pert", "shear"], nvar=4, nk=4, nmask=0, exhnb=0)
